@@ -85,6 +85,7 @@ def sP : Bytes := [112]  -- "p"
 def sErr : Bytes := [101, 114, 114]  -- "err"
 def sCtx : Bytes := [99, 116, 120]  -- "ctx"
 def sR : Bytes := [114]  -- "r"
+def sNil : Bytes := [110, 105, 108]  -- "nil"
 def sUResult : Bytes := [95, 114, 101, 115, 117, 108, 116]  -- "_result"
 def sSuccess : Bytes := [115, 117, 99, 99, 101, 115, 115]  -- "success"
 def tNew : Bytes := [110, 101, 119, 58]  -- "new:"
@@ -278,6 +279,7 @@ structure Feat where
   halfway : Bool := false       -- field_mask_halfway     (minted only)
   fastgo : Bool := false        -- backend fastgo         (minted only)
   adaptor : Bool := false       -- apache_adaptor: Read/Write delegate to the adaptor, no ReadField<id>/writeField<id> (declared only)
+  fnV2 : Bool := false          -- buildFunction reserves `nil` (the generated bodies compare with and return nil)
   svcV2 : Bool := false         -- buildService reserves `Client_` (the accessor of the client template) among the function names
   resV2 : Bool := false         -- buildStructLike reserves EVERY method the templates declare (InitDefault, CountSetFields<T>,
                                 -- field-mask accessors, the methods of a backend on top: fastgo); regenerated from the source
@@ -391,12 +393,12 @@ def paramOps (ft : Feat) (ident : Bytes → Bytes) (keywords : List Bytes) (fs :
   fs.map fun a => Op.add (keywordFix keywords (lowerFirst (scopeIdentify ft ident a.name))) a.name
 
 /-- names reserved in a function scope before the parameters -/
-def fnReserved (void : Bool) : List Bytes :=
-  [sP, sErr, sCtx] ++ (if void then [] else [sR, sUResult])
+def fnReserved (ft : Feat) (void : Bool) : List Bytes :=
+  [sP, sErr, sCtx] ++ (if ft.fnV2 then [sNil] else []) ++ (if void then [] else [sR, sUResult])
 
 /-- `buildFunction`: the function's namespace -/
 def buildFunction (ft : Feat) (ident : Bytes → Bytes) (keywords : List Bytes) (f : Fn) : Except Err NS := do
-  let ns0 ← reserveAll NS.empty (fnReserved f.void)
+  let ns0 ← reserveAll NS.empty (fnReserved ft f.void)
   let ns1 ← addAll underscore ns0 (paramOps ft ident keywords f.args)
   addAll underscore ns1 (paramOps ft ident keywords f.throws)
 
